@@ -99,6 +99,18 @@ func runC07(c *Ctx) {
 								key = "global:" + g.Name() + "." + nm + "()"
 							}
 						}
+						// ... or handed the address of a wrapper field (a buffer, a cache kept on the
+						// engine object): whatever it keeps there a rebuilt game does not have
+						if key == "" {
+							for _, a := range x.Call.Args {
+								if fa, ok := a.(*ssa.FieldAddr); ok && wrapper[ownerOfKey(fieldKeyOf(fa.X, fa.Field))] {
+									if nm := callee.Name(); nm != "Load" && nm != "Range" && nm != "Len" && nm != "Bytes" && nm != "String" && nm != "RLock" && nm != "RUnlock" {
+										key = fieldKeyOf(fa.X, fa.Field)
+										_, fresh = rootOf(a)
+									}
+								}
+							}
+						}
 					}
 				case *ssa.MapUpdate:
 					if l, ok := x.Map.(*ssa.UnOp); ok {
@@ -520,6 +532,28 @@ func runC07Load(c *Ctx, ea *engineAnchors) {
 			}
 			if nLoop == 0 {
 				bad = append(bad, "no loop over the players of the adopted state rebuilds the wiring")
+			} else {
+				// ... on every path that adopts the state and returns normally
+				paths, _ := s.Function(ld)
+				for _, ps := range paths {
+					if ps.End != "return" {
+						continue
+					}
+					if len(ps.Ret) == 1 {
+						if _, refuses := c.sentinelError(ps.Ret[0]); refuses {
+							continue
+						}
+					}
+					through := false
+					for _, e := range ps.Events {
+						if e.Kind == "loop" && e.Loop != nil && loadsField(analyseRange(e.Loop).Coll, "pokerface.GameState.Players") {
+							through = true
+						}
+					}
+					if !through {
+						bad = append(bad, "the wiring is kept from before under ["+ps.CondString()+"]")
+					}
+				}
 			}
 		}
 		c.check(len(bad) == 0, "load-is-identity", fnKey(ld), p.FnPos(ld), "adopts the state unchanged: only the engine's own wiring is written, and it is rebuilt for every player", "a rebuilt game differs from the serialised one", uniq(bad, 3)...)
@@ -715,6 +749,27 @@ func runC07Determinism(c *Ctx, ea *engineAnchors, roots []*ssa.Function, R map[*
 				}
 			}
 		}
+	}
+	// scheduling is a source too: work started with `go` (or a select over several channels) from
+	// an operation finishes in an order the state does not determine
+	{
+		var conc []string
+		for _, fn := range sortedFns(R) {
+			if fn.Pkg == nil || !enginePkgs[shortPkg(fn.Pkg.Pkg.Path())] {
+				continue
+			}
+			for _, b := range fn.Blocks {
+				for _, in := range b.Instrs {
+					switch in.(type) {
+					case *ssa.Go:
+						conc = append(conc, fmt.Sprintf("%s starts a goroutine at %s", fnKey(fn), p.InstrPos(in)))
+					case *ssa.Select:
+						conc = append(conc, fmt.Sprintf("%s selects over channels at %s", fnKey(fn), p.InstrPos(in)))
+					}
+				}
+			}
+		}
+		c.check(len(conc) == 0, "determinism-sources", "operations-are-sequential", "-", fmt.Sprintf("none of the %d functions reachable from operations starts a goroutine or selects over channels", len(R)), "an operation's result can depend on scheduling", uniq(conc, 3)...)
 	}
 	c.role("clock/random-derived fields", strings.Join(sortedSet(clockFields), ","))
 	c.floor("determinism-sources", "clock/random call sites in engine packages", len(sites), 4)
@@ -918,4 +973,11 @@ func mustCall(p *Prog, f, target *ssa.Function, depth int) bool {
 		}
 	}
 	return true
+}
+
+func ownerOfKey(key string) string {
+	if i := strings.LastIndex(key, "."); i > 0 {
+		return key[:i]
+	}
+	return key
 }
